@@ -1,9 +1,9 @@
 (* C17 — Equal is exactly the documented structural equality.
    Statements only; each is closed by [exact] of a lemma proved elsewhere.
-   The model-level statement equal_m_correct_statement ([T1]) is NOT proved in full; the
-   theorems named ..._if derive reflexivity / symmetry / layout independence of equal_m from
-   it, the theorems named ..._partial are the cases of it that are proved (docs/C17.md). *)
-From CV Require Import Value.ValueEq Value.ValueEqProofs Value.EqualM Value.EqualProofs.
+   [den strict m mid caps p v] (Value/Den.v): pointer p of message m denotes the value v --
+   defined directly on the bytes (no limits, independent of p's depth limit). *)
+From CV Require Import Value.ValueEq Value.ValueEqProofs Value.EqualM Value.Den Value.EqualCorrect Value.EqualProofs.
+From CV Require Import Core.ReaderFacts.
 Open Scope Z_scope.
 
 (* the documented equality is reflexive and symmetric on all value trees *)
@@ -20,7 +20,7 @@ Theorem C17_value_eqs_value_eq : forall a b, value_eqs a b = true -> value_eq a 
 Proof. exact value_eqs_value_eq. Qed.
 Print Assumptions C17_value_eqs_value_eq.
 
-(* it is NOT transitive: the list-upgrade rule, and nil clients *)
+(* it is NOT transitive: the list-upgrade rule (and nil clients, cap_eq_not_transitive) *)
 Theorem C17_value_eq_not_transitive :
   let a := VList LB1 [VStruct [1] []] in
   let b := VList LComp [VStruct [1] []] in
@@ -29,67 +29,65 @@ Theorem C17_value_eq_not_transitive :
 Proof. exact value_eq_not_transitive. Qed.
 Print Assumptions C17_value_eq_not_transitive.
 
-(* model level, proved cases of equal_m = value_eq o denote: null pointers ... *)
-Theorem C17_equal_m_null_partial : forall f c fx w p q,
-  p_valid p = false ->
-  equal_m (S f) c fx w p q = (EOk (negb (p_valid q)), w)
-  /\ equal_m (S f) c fx w q p = (EOk (negb (p_valid q)), w).
-Proof. exact equal_m_null_partial. Qed.
-Print Assumptions C17_equal_m_null_partial.
+(* [T1] Equal (repaired model, any fuel, any remaining budgets, one or two messages) answers
+   exactly the documented equality of the denoted values: structs with zero extension, all
+   list kinds incl. the bytewise fast path and list upgrades, bit lists, capabilities, null *)
+Theorem C17_equal_m_correct : forall c fx x fuel st p q b st' va vb,
+  cfg_strict c = true -> all_fixed fx -> msg_ok (segs_of x SA) -> msg_ok (segs_of x SB) ->
+  equal_m fuel c fx x st p q = (EOk b, st') ->
+  den true (segs_of x SA) 0 (caps_of x SA) p va ->
+  den true (segs_of x SB) (if ec_same x then 0 else 1) (caps_of x SB) q vb ->
+  b = value_eq va vb.
+Proof. exact equal_m_correct. Qed.
+Print Assumptions C17_equal_m_correct.
 
-Theorem C17_walk_valid_not_null : forall c fx m dcap pcap fuel rl p t rl' mid caps,
-  p_valid p = true -> walk c fx m dcap pcap fuel rl (Ok p) = (t, rl') -> tree_ok t = true ->
-  is_null (denote mid caps t) = false.
-Proof. exact walk_valid_not_null. Qed.
-Print Assumptions C17_walk_valid_not_null.
+(* layout independence: any two encodings of equal values are Equal *)
+Theorem C17_equal_layout_independent : forall c fx x fuel st p q b st' va vb,
+  cfg_strict c = true -> all_fixed fx -> msg_ok (segs_of x SA) -> msg_ok (segs_of x SB) ->
+  equal_m fuel c fx x st p q = (EOk b, st') ->
+  den true (segs_of x SA) 0 (caps_of x SA) p va ->
+  den true (segs_of x SB) (if ec_same x then 0 else 1) (caps_of x SB) q vb ->
+  value_eq va vb = true -> b = true.
+Proof. exact equal_layout_independent. Qed.
+Print Assumptions C17_equal_layout_independent.
 
-(* ... and capabilities (same message: same index or same client of the table; different
-   messages: same client, an index outside the table being the nil client) *)
-Theorem C17_equal_m_iface_partial : forall f c fx w p q,
-  is_iface p = true -> is_iface q = true -> 0 <= p_len p -> 0 <= p_len q ->
-  equal_m (S f) c fx w p q =
-  (EOk (value_eq (denote 0 (w_caps_of w SA) (TCap (p_len p)))
-                 (denote (if ew_same w then 0 else 1) (w_caps_of w SB) (TCap (p_len q)))), w).
-Proof. exact equal_m_iface_partial. Qed.
-Print Assumptions C17_equal_m_iface_partial.
+Theorem C17_equal_refl : forall c fx x fuel st p b st' v,
+  cfg_strict c = true -> all_fixed fx -> msg_ok (segs_of x SA) -> ec_same x = true ->
+  equal_m fuel c fx x st p p = (EOk b, st') ->
+  den true (segs_of x SA) 0 (caps_of x SA) p v -> b = true.
+Proof. exact equal_refl. Qed.
+Print Assumptions C17_equal_refl.
 
-(* consequences of the full statement *)
-Theorem C17_equal_refl_if : equal_m_correct_statement ->
-  forall fuel c fx w p b w' v,
-    all_fixed fx -> ew_same w = true -> far_ok (w_segs_of w SA) ->
-    equal_m fuel c fx w p p = (EOk b, w') ->
-    denotes c (fx_rd fx) (w_segs_of w SA) 0 (w_caps_of w SA) p v ->
-    b = true.
-Proof. exact equal_refl_if. Qed.
-Print Assumptions C17_equal_refl_if.
+Theorem C17_equal_sym : forall c fx x fuel st1 st2 p q b1 b2 st1' st2' va vb,
+  cfg_strict c = true -> all_fixed fx -> msg_ok (segs_of x SA) -> ec_same x = true ->
+  equal_m fuel c fx x st1 p q = (EOk b1, st1') ->
+  equal_m fuel c fx x st2 q p = (EOk b2, st2') ->
+  den true (segs_of x SA) 0 (caps_of x SA) p va ->
+  den true (segs_of x SA) 0 (caps_of x SA) q vb -> b1 = b2.
+Proof. exact equal_sym. Qed.
+Print Assumptions C17_equal_sym.
 
-Theorem C17_equal_sym_if : equal_m_correct_statement ->
-  forall fuel c fx w p q b1 b2 w1 w2 va vb,
-    all_fixed fx -> ew_same w = true -> far_ok (w_segs_of w SA) ->
-    equal_m fuel c fx w p q = (EOk b1, w1) ->
-    equal_m fuel c fx w q p = (EOk b2, w2) ->
-    denotes c (fx_rd fx) (w_segs_of w SA) 0 (w_caps_of w SA) p va ->
-    denotes c (fx_rd fx) (w_segs_of w SA) 0 (w_caps_of w SA) q vb ->
-    b1 = b2.
-Proof. exact equal_sym_if. Qed.
-Print Assumptions C17_equal_sym_if.
-
-Theorem C17_equal_layout_independent_if : equal_m_correct_statement ->
-  forall fuel c fx w p q b w' va vb,
-    all_fixed fx -> far_ok (w_segs_of w SA) -> far_ok (w_segs_of w SB) ->
-    equal_m fuel c fx w p q = (EOk b, w') ->
-    denotes c (fx_rd fx) (w_segs_of w SA) 0 (w_caps_of w SA) p va ->
-    denotes c (fx_rd fx) (w_segs_of w SB) (if ew_same w then 0 else 1) (w_caps_of w SB) q vb ->
-    value_eq va vb = true -> b = true.
-Proof. exact equal_layout_independent_if. Qed.
-Print Assumptions C17_equal_layout_independent_if.
+(* non-vacuity: the hypotheses are satisfiable (a root struct holding a bit list) *)
+Theorem C17_den_example :
+  exists p, fst (root cfg0 (msg_bits 5) 1000) = Ok p
+            /\ den true (msg_bits 5) 0 [] p (VStruct [] [VBits [true; false; true]]).
+Proof. exact den_example. Qed.
+Print Assumptions C17_den_example.
 
 (* F01, the code as found: bit lists that differ, and a bit list and a void list of one
    length, are Equal although the documented equality of their walked trees is false *)
 Theorem C17_equal_prefix_refuted :
-  eq_res (run_equal 20 cfg0 cfg0 (mkEFix false rdfix) (msg_bits 5) [] (msg_bits 2) [] false SelRoot SelRoot) = EOk true
+  eq_res (run_equal 20 cfg0 cfg0 asfound_e (msg_bits 5) [] (msg_bits 2) [] false SelRoot SelRoot) = EOk true
   /\ fst (fst (spec_equal 20 cfg0 cfg0 rdfix (msg_bits 5) [] (msg_bits 2) [] false SelRoot SelRoot 1024 64)) = Some false
-  /\ eq_res (run_equal 20 cfg0 cfg0 (mkEFix false rdfix) (msg_bits 5) [] msg_void [] false SelRoot SelRoot) = EOk true
+  /\ eq_res (run_equal 20 cfg0 cfg0 asfound_e (msg_bits 5) [] msg_void [] false SelRoot SelRoot) = EOk true
   /\ fst (fst (spec_equal 20 cfg0 cfg0 rdfix (msg_bits 5) [] msg_void [] false SelRoot SelRoot 1024 64)) = Some false.
 Proof. exact equal_prefix_refuted. Qed.
 Print Assumptions C17_equal_prefix_refuted.
+
+(* O3, the code as found: a far pointer to a null landing pad in an extra pointer slot *)
+Theorem C17_equal_farnull_prefix_refuted :
+  eq_res (run_equal 20 cfg0 cfg0 (mkEFix true false rdfix) msg_farnull [] msg_onenull [] false SelRoot SelRoot) = EOk false
+  /\ fst (fst (spec_equal 20 cfg0 cfg0 rdfix msg_farnull [] msg_onenull [] false SelRoot SelRoot 1024 64)) = Some true
+  /\ eq_res (run_equal 20 cfg0 cfg0 repaired_e msg_farnull [] msg_onenull [] false SelRoot SelRoot) = EOk true.
+Proof. exact equal_farnull_prefix_refuted. Qed.
+Print Assumptions C17_equal_farnull_prefix_refuted.
